@@ -61,7 +61,7 @@ let ppu_read reg =
 
 let () =
   on_reset pnew;
-  register "ppu.new" (fun _ -> pnew ());
+  register "ppu.new" (fun _ -> pnew (); emit "new");
   register "ppu.tick" (fun a ->
     rle_reset ();
     for _ = 1 to ai a 1 do
